@@ -105,11 +105,23 @@ def gen_listings(ctx):
 
 
 def cases(ctx):
+    k = 0
     for n, listing, names in gen_listings(ctx):
+        k += 1
+        if k % 5 == 2:  # arbitrary node names: here names that differ only in case / surrounding blanks
+            names = COLLIDING[:n]
         yield {"n": n, "edges": [list(e) for e in listing], "names": names}
 
 
+COLLIDING = ["Head", "head", " head", "HEAD ", "a", " a", "A", "a ", "Tail"]  # distinct names that coincide after strip() / lower()
+
+
 def directed(ctx):
+    # a 12-node skeleton whose two-digit indices concatenate ambiguously ((1,10) and (11,0) both read "110"), under several listings
+    big = [[1, 10], [10, 11], [11, 0], [0, 2], [2, 3], [3, 4], [4, 5], [5, 6], [6, 7], [7, 8], [8, 9]]
+    rr = np.random.default_rng(17)
+    for _ in range(6):
+        yield {"n": 12, "edges": [big[j] for j in rr.permutation(len(big))], "names": None}
     yield {"n": 4, "edges": [[2, 3], [1, 2], [0, 1]], "names": None}
     yield {"n": 5, "edges": [[3, 4], [0, 3], [1, 2], [0, 1]], "names": ["e", "d", "c", "b", "a"]}
 
